@@ -109,6 +109,17 @@ class Ctx:
             self.bad(rule, "floor:%s" % what, "-", "only %d %s found, floor is %d (anchor moved or rule went vacuous)" % (n, what, minimum))
         else:
             self.notes.append("%s: %d %s (floor %d)" % (rule, n, what, minimum))
+    def view(self, body, keep=(), depth=3, private_only=True):
+        """`body` with its same-crate (by default: private, non-trait) callees inlined, except calls matching `keep` (see vlib/inline.py)"""
+        from .inline import inline
+        k = (id(body), tuple(keep), depth, private_only)
+        if not hasattr(self, "_views"): self._views = {}
+        if k not in self._views:
+            also = (lambda cb: cb.public is False and cb.impl_trait is None) if private_only else None
+            self._views[k] = inline(self.mir, body, keep=keep, depth=depth, also=also)
+        v = self._views[k]
+        for path, sp in v.inlined: self.analysed["functions"].add("%s::%s (inlined into %s)" % (body.pkg, path, body.path))
+        return v
     def saw(self, body):
         self.analysed["functions"].add("%s::%s" % (body.pkg, body.path))
     def site(self, obj, body=None):
